@@ -57,6 +57,8 @@ def core_ir(eng):
     tensor_protocol(eng)
     for n in ("TypeObj", "MetadataStore", "Attributes", "Attr", "ModelConfiguration"):
         opaque_class(eng, n)
+    for n in ("TypeObj", "Shape"):
+        eng.classes[n].structural_eq = True       # the real classes define __eq__ over their contents
     usage = TRec("Usage", (("node", TRef("Node")), ("idx", INT)))
     eng.add_class(ClassDecl("Usage", mod=CORE, record=usage))
     eng.classes["Usage"].record.is_tuple = True
